@@ -2,4 +2,11 @@ registry! {
     c09_pow_iff: scen::c09::IFF_LEN => scen::c09::pow_iff;
     c09_pow_config: scen::c09::CFG_LEN => scen::c09::pow_config;
     c09_pow_commit: scen::c09::COMMIT_LEN => scen::c09::pow_commit;
+    c11_exact_3_2: scen::c11::len(3, 2) => scen::c11::exact::<3, 2>;
+    c11_exact_2_1: scen::c11::len(2, 1) => scen::c11::exact::<2, 1>;
+    c11_exact_4_3: scen::c11::len(4, 3) => scen::c11::exact::<4, 3>;
+    c11_exact_5_4: scen::c11::len(5, 4) => scen::c11::exact::<5, 4>;
+    c11_exact_0_0: scen::c11::len(0, 0) => scen::c11::exact::<0, 0>;
+    c11_exact_3_1: scen::c11::len(3, 1) => scen::c11::exact::<3, 1>;
+    c11_exact_2_2: scen::c11::len(2, 2) => scen::c11::exact::<2, 2>;
 }
